@@ -1012,7 +1012,9 @@ where
     /// # Errors
     /// Fails because of any IO errors.
     pub async fn fsyncdata(&self) -> IOResult<()> {
-        self.inner.fsyncdata().await
+        // Explicit request: performed regardless of the dirty bytes threshold and of the
+        // background sync, which are only relevant for `Inner::fsyncdata`
+        self.inner.safe.read().await.fsyncdata().await
     }
 
     /// Force updates active blob on new one to dump index of old one on disk and free RAM.
